@@ -522,10 +522,13 @@ class HelicityAmplitudeBuilder:
         self, transition: StateTransition, node_id: int
     ) -> sp.Expr:
         decay = TwoBodyDecay.from_transition(transition, node_id)
-        if decay not in self.dynamics:
+        builder = self.dynamics.get(decay)
+        if builder is None:
+            # transition that was created by permutating identical final state particles
+            builder = _find_builder_for_identical_decay(self.dynamics, decay)
+        if builder is None:
             return sp.S.One
 
-        builder = self.dynamics[decay]
         variable_set = _generate_kinematic_variable_set(transition, node_id)
         expression, parameters = builder(decay.parent.particle, variable_set)
         for par, value in parameters.items():
@@ -599,6 +602,27 @@ def _freeze(graph: MutableTransition[State, InteractionProperties]) -> StateTran
     if get_qrules_version() < (0, 10):
         return StateTransition.from_graph(graph)  # type: ignore[attr-defined]
     return graph.freeze()
+
+
+def _find_builder_for_identical_decay(
+    dynamics: DynamicsSelector, decay: TwoBodyDecay
+) -> ResonanceDynamicsBuilder | None:
+    """Find the builder of the decay that is the same up to its state IDs."""
+
+    def strip_ids(decay: TwoBodyDecay) -> tuple:
+        return (
+            (decay.parent.particle, decay.parent.spin_projection),
+            sorted(
+                ((s.particle.name, s.spin_projection) for s in decay.children),
+            ),
+            decay.interaction,
+        )
+
+    key = strip_ids(decay)
+    for other_decay, builder in dynamics.items():
+        if strip_ids(other_decay) == key:
+            return builder
+    return None
 
 
 class CanonicalAmplitudeBuilder(HelicityAmplitudeBuilder):
